@@ -291,6 +291,8 @@ structure LineOK (P : Params) (l : List UInt8) (t : List Char) : Prop where
   no_nl : '\n' ∉ t
   no_lead : commandLead t = none
   no_exit : LineParser.extractExitCode t = none
+  /-- `str::lines()` would drop a final carriage return -/
+  no_cr : t.getLast? ≠ some '\r'
   parses : ∃ e, parse P t = .ok e ∧ e.optional = false ∧ e.multiline = false ∧
       (e.kind = .equal ∨ e.kind = .noEol ∨ e.kind = .escaped) ∧ strRuleMatches e.kind e.expr l = true
 
@@ -327,16 +329,46 @@ theorem kindMod_line {P : Params} (hP : StdParams P) (p : List Char) (k : Gramma
     rw [Grammar.parse_of_modifier hnl' hm hk]
     cases makeRule P k p <;> simp [Grammar.quantOpt]
 
+theorem getLast_kindMod (p : List Char) (k : Grammar.Kind) : (p ++ kindMod k).getLast? = some ')' := by
+  have : p ++ kindMod k = (p ++ [' ', '('] ++ k.name) ++ [')'] := by simp [kindMod]
+  rw [this, List.getLast?_append]
+  simp
+
+theorem no_cr_kindMod (p : List Char) (k : Grammar.Kind) : (p ++ kindMod k).getLast? ≠ some '\r' := by
+  rw [getLast_kindMod]; decide
+
+/-- a line the escaper leaves as it is holds no carriage return -/
+theorem no_cr_of_printable {m : Mode} {isOther : Char → Bool} (hC : m = .unicode → AsciiContract isOther)
+    {c : List UInt8} {w : List Char} (hu : hasUnprintable m isOther c = false) (hw : utf8 w = c) :
+    '\r' ∉ w := by
+  intro hm
+  cases m with
+  | ascii =>
+    have h13 : (13 : UInt8) ∈ c := by
+      rw [← hw]
+      exact mem_utf8 hm 13 (by decide)
+    simp only [hasUnprintable, hasUnprintableAscii, List.any_eq_false] at hu
+    have := hu 13 h13
+    simp [printableByte] at this
+  | unicode =>
+    have hd : utf8Decode c = some w := by rw [← hw]; exact utf8Decode_utf8 w
+    simp only [hasUnprintable, hasUnprintableUnicode, hd, List.any_eq_false] at hu
+    have h1 := hu '\r' hm
+    have h2 := (hC rfl '\r' (by decide)).mpr (Or.inl (by decide))
+    rw [h2] at h1
+    exact absurd rfl h1
+
 theorem white_sub {P : Params} (hP : StdParams P) : ∀ c, P.isWhite c = true → unicodeWhite c = true := by
   intro c h; rwa [hP.white] at h
 
 /-- the text of a printable line, written as it is -/
 theorem plain_ok {P : Params} (hP : StdParams P) {l c : List UInt8} {e : List Char}
     (hu : utf8 e = c) (hlf : NoLF c) (hl : l = c ++ [10])
-    (hlooks : looksLikeModifierOrExitCode e = false) (hlead : commandLead e = none) : LineOK P l e := by
+    (hlooks : looksLikeModifierOrExitCode e = false) (hlead : commandLead e = none)
+    (hcr : '\r' ∉ e) : LineOK P l e := by
   have hnl := not_mem_nl_of_utf8 hu hlf
   simp only [looksLikeModifierOrExitCode, Bool.or_eq_false_iff] at hlooks
-  refine ⟨hnl, hlead, extractExitCode_of_not_shaped hlooks.1, ?_⟩
+  refine ⟨hnl, hlead, extractExitCode_of_not_shaped hlooks.1, fun h => hcr (List.mem_of_getLast? h), ?_⟩
   have hno := Grammar.not_modifier_of_not_endsLike (W := P.isWhite) (white_sub hP) hlooks.2
   refine ⟨_, Grammar.parse_of_no_modifier hnl hno, rfl, rfl, Or.inl rfl, ?_⟩
   show equalMatches e l = true
@@ -349,7 +381,7 @@ theorem equal_ok {P : Params} (hP : StdParams P) {l c : List UInt8} {e : List Ch
   have hnl := not_mem_nl_of_utf8 hu hlf
   rw [equalMod_eq] at hlead ⊢
   obtain ⟨h1, h2, h3⟩ := kindMod_line hP e .equal hnl
-  refine ⟨h1, hlead, h2, _, h3, rfl, rfl, Or.inl rfl, ?_⟩
+  refine ⟨h1, hlead, h2, no_cr_kindMod e .equal, _, h3, rfl, rfl, Or.inl rfl, ?_⟩
   show equalMatches e l = true
   rw [equal_iff' e l (by rw [hu]; exact hlf.getLast), hu, hl]
 
@@ -360,7 +392,7 @@ theorem noEol_ok {P : Params} (hP : StdParams P) {l c : List UInt8} {e : List Ch
   have hnl := not_mem_nl_of_utf8 hu hlf
   rw [noEolMod_eq] at hlead ⊢
   obtain ⟨h1, h2, h3⟩ := kindMod_line hP e .noEol hnl
-  refine ⟨h1, hlead, h2, _, h3, rfl, rfl, Or.inr (Or.inl rfl), ?_⟩
+  refine ⟨h1, hlead, h2, no_cr_kindMod e .noEol, _, h3, rfl, rfl, Or.inr (Or.inl rfl), ?_⟩
   show noEolMatches e l = true
   rw [noeol_iff, hu, hl]
 
@@ -386,7 +418,7 @@ theorem escaped_core {P : Params} (hP : StdParams P) {l c : List UInt8} {w : Lis
     rw [hs, hP.escaped]
     exact htok.decode_eq
   rw [hmk] at h3
-  refine ⟨h1, hlead, h2, _, h3, rfl, rfl, Or.inr (Or.inr rfl), ?_⟩
+  refine ⟨h1, hlead, h2, no_cr_kindMod w .escaped, _, h3, rfl, rfl, Or.inr (Or.inr rfl), ?_⟩
   show escapedMatches c l = true
   simp [escapedMatches, hc]
 
@@ -586,7 +618,7 @@ theorem line_ok {P : Params} (hP : StdParams P) (m : Mode) (isOther : Char → B
             have := endsLike_of_suffix hs
             simp [looksLikeModifierOrExitCode, this] at hlk
         rw [List.append_nil] at hcl hline
-        refine ⟨w, ?_, plain_ok hP hu8 hlf hl1 hlk hcl⟩
+        refine ⟨w, ?_, plain_ok hP hu8 hlf hl1 hlk hcl (no_cr_of_printable hC hu hu8)⟩
         simp [expectationLine, hline, guardNoEol_of_not hns]
     | some ch =>
       obtain ⟨hch, r, hr⟩ := commandLead_some hcl
